@@ -64,8 +64,8 @@ def diff_class(exp, got):
 def run(ctx):
     q = ctx.quick
     rng = random.Random("X-cli_cp-%d" % ctx.seed)
-    consts = {"Seed": ctx.seed, "Mod1": 4 if q else 1, "Mod2": 10 if q else 1, "Mod3": 10 if q else 1, "WorldNames": '{"big", "fresh", "flat"}',
-              "TinyMod": 400 if q else 40}
+    consts = {"Seed": ctx.seed, "Mod1": 4 if q else 1, "Mod2": 8 if q else 1, "Mod3": 8 if q else 1, "WorldNames": '{"big", "fresh", "flat"}',
+              "TinyMod": 250 if q else 40}
     ctx.constants["GEN_CliCp"] = consts
     cfg = "SPECIFICATION Spec\nCONSTANTS\n" + "".join("  %s = %s\n" % kv for kv in consts.items()) + "".join("INVARIANT %s\n" % i for i in INVS)
     cache = os.environ.get("VERIF_CLICP_ROWS")      # mutant sweeps only: the Spec is unchanged, reuse its table
@@ -75,8 +75,7 @@ def run(ctx):
         r = None
         ctx.notes.append("GEN skipped (VERIF_CLICP_ROWS)")
     else:
-        rows, r = ctx.gen("frontends/GenCliCp", cfg, timeout=3000, coverage=False,
-                           env={"_JAVA_OPTIONS": "-XX:TieredStopAtLevel=1"} if q else None)       # quick: a short run, C1 only starts faster
+        rows, r = ctx.gen("frontends/GenCliCp", cfg, timeout=3000, coverage=False)
         if cache:
             with open(cache, "w") as f:
                 json.dump(rows, f)
@@ -95,12 +94,12 @@ def run(ctx):
         for key in sorted(strata, key=str):
             idx = strata[key]
             sel += rng.sample(idx, min(len(idx), 2 if key[2] == "ok" else 1))
-        if len(sel) > 420:      # rows that must fail: at most as many as fit
+        if len(sel) > 500:      # rows that must fail: at most as many as fit
             keep = [i for i in sel if cases[i]["expect"] != "error"]
             errs = [i for i in sel if cases[i]["expect"] == "error"]
-            sel = keep + rng.sample(errs, max(0, 420 - len(keep)))
+            sel = keep + rng.sample(errs, max(0, 500 - len(keep)))
         rest = sorted(set(i for i, c in enumerate(cases) if c["expect"] == "ok") - set(sel))
-        sel += rng.sample(rest, min(len(rest), max(0, 420 - len(sel))))
+        sel += rng.sample(rest, min(len(rest), max(0, 500 - len(sel))))
     else:
         sel = [i for i, c in enumerate(cases) if c["expect"] != "error"]
         for key in sorted(strata, key=str):
@@ -109,7 +108,7 @@ def run(ctx):
     rng.shuffle(sel)
     inp = {"worlds": worlds, "cases": [{"id": i, "world": cases[i]["world"], "srcs": cases[i]["srcs"], "tgt": cases[i]["tgt"],
                                         "r": cases[i]["r"], "caps": cases[i]["caps"]} for i in sel]}
-    out = ctx.impl("harness/clicp_driver.py", ["--jobs", 4 if q else 6], inp, timeout=6000)
+    out = ctx.impl("harness/clicp_driver.py", ["--jobs", 4 if q else 6], inp, timeout=5000)
     res = out["results"]
 
     tally = collections.Counter()
@@ -176,14 +175,14 @@ def run(ctx):
     ctx.exhaustive = False
     ctx.rule = ("GEN: GenCliCp.tla's worlds (big: both sides f, d/{x,m,s/u1,e/}, g/{x,d/{x,z}}, t/{x,m,d/x,f/,g}, three mutable "
                 "files on the grid; fresh: empty grid directory; flat: files only; tiny<i>: the 209 pairs of trees with at most two entries, one row in "
-                "400 / thorough 40) x every (source, target, flags) for one source, and "
+                "250 / thorough 40) x every (source, target, flags) for one source, and "
                 "for every (first source, target, flags) one list of two and one of three sources chosen by index arithmetic rotated by "
                 "the seed; source = local or grid x named path / bare capability / bare alias x trailing slash x existing file / "
                 "directory / missing, target = root, existing file / mutable file / directory, missing name x trailing slash x both "
-                "sides, flags = -r x --caps-only (quick: one row in 4 / 10 / 10).  Replayed, thorough: every row that must succeed or is not "
+                "sides, flags = -r x --caps-only (quick: one row in 4 / 8 / 8).  Replayed, thorough: every row that must succeed or is not "
                 "judged, 25 rows per stratum (error classes, sides, one / several sources) of the rows that must fail; quick: a seeded sample "
                 "with rows of every stratum (world, number of sources, expectation, reason, sides, flags), 2 per stratum of "
-                "rows that must succeed, 1 otherwise, 420 in all.  non-trivial = a row that must "
+                "rows that must succeed, 1 otherwise, 500 in all.  non-trivial = a row that must "
                 "succeed and has several sources, or makes a directory, or writes a mutable file in place.")
     ctx.assumptions += ["TLC and the CommunityModules",
                         "the driver's fixed tables (names, content identifier -> bytes, spelling of an argument per form, stderr text -> "
